@@ -168,6 +168,16 @@ def dag_case(rng, tier):
 def op_case(rng, op):
     gen = gen_ops.gen_basic if op in gen_ops.OPS_BASIC else gen_ops.gen_nn
     leaves, args = gen(rng, op, False)
+    if op not in ('log', 'sqrt', 'binary_cross_entropy') and rng.chance(.4):
+        # special values in the float operands — exact zeros of either sign, +-1, repeated entries: a write that is triggered by a
+        # VALUE (a[a == 0] = eps, x[x < 0] = 0, clipping in place) needs them
+        leaves = list(leaves)
+        for k, lf in enumerate(leaves):
+            if (len(lf) > 3 and lf[3] == 'i64') or not lf[1]: continue
+            d = list(lf[1])
+            for _ in range(rng.randint(1, max(1, len(d) // 2))):
+                d[rng.randrange(len(d))] = rng.pick([0.0, 0.0, -0.0, 1.0, -1.0, d[rng.randrange(len(d))]])
+            leaves[k] = (lf[0], d) + tuple(lf[2:])
     alias = {}
     for k in range(1, len(leaves)):
         for j in range(k):
@@ -203,6 +213,17 @@ def cases(rng, tier):
             out.append(op_case(rng, op))
     for _ in range(40 if tier == 'quick' else 1200):
         out.append(dag_case(rng, tier))
+    # value corners of the power / division family: zeros (of either sign) in a base raised to a negative power, in a denominator
+    for k in range(6 if tier == 'quick' else 60):
+        sh = rng.pick([(4,), (2, 3)])
+        d = gen_ops.vals(rng, sh)
+        for i in rng.sample(range(len(d)), 2): d[i] = rng.pick([0.0, -0.0])
+        lines = [gen_dag.leaf_line(sh, d, rng.chance(.7)), gen_dag.leaf_line(sh, gen_ops.vals(rng, sh, 'pos'), True)]
+        if k % 3 == 0: lines.append(f"t op pow 0 {common.fbits(rng.pick([-1.0, -2.0, -0.5]))}"); res = 2
+        elif k % 3 == 1: lines.append('t sop div 1 t0'); res = 3
+        else: lines.append(f"t sop rdiv 0 s{common.fbits(2.0)}"); res = 4
+        lines += [f't val {j}' for j in range(res + 1)]
+        out.append({'kind': 'op', 'op': 'pow-family', 'lines': lines, 'alias': {}})
     for w in (rng.sample(BIG, 3) if tier == 'quick' else BIG) + CORNERS:
         out.append({'kind': 'big', 'which': w, 'seed': rng.randrange(2 ** 31), 'alias': {}, 'lines': ['t modes']})
     for c in out:
